@@ -86,6 +86,9 @@ func (s *vfScriptConn) SetDeadline(time.Time) error      { return nil }
 func (s *vfScriptConn) SetReadDeadline(time.Time) error  { return nil }
 func (s *vfScriptConn) SetWriteDeadline(time.Time) error { return nil }
 
+// vfNamePrefix is the suite part of generated test names (changed to tell two connections' streams apart).
+var vfNamePrefix = "Suite"
+
 // ---------------------------------------------------------------- exchange model
 
 type vfH2Stream struct {
@@ -245,7 +248,7 @@ func vfGenExchange(r *verifkit.Rand, allowCont bool) *vfExchange {
 		return out
 	}
 	for i := 0; i < ns; i++ {
-		s := &vfH2Stream{ID: nextID, Name: fmt.Sprintf("Suite/case-%d", i), ReqMsgs: mkMsgs(), RespMsgs: mkMsgs(), Cont: allowCont && r.Chance(1, 3), Bidi: r.Chance(1, 3)}
+		s := &vfH2Stream{ID: nextID, Name: fmt.Sprintf("%s/case-%d", vfNamePrefix, i), ReqMsgs: mkMsgs(), RespMsgs: mkMsgs(), Cont: allowCont && r.Chance(1, 3), Bidi: r.Chance(1, 3)}
 		nextID += 2
 		if r.Chance(1, 6) {
 			s.Name = ""
@@ -268,7 +271,7 @@ func vfGenExchange(r *verifkit.Rand, allowCont bool) *vfExchange {
 	}
 	if r.Chance(1, 5) {
 		// a last stream that is still open when the server says GOAWAY(last = the previous stream)
-		s := &vfH2Stream{ID: nextID, Name: "Suite/open-at-goaway", ReqMsgs: mkMsgs(), End: "goaway"}
+		s := &vfH2Stream{ID: nextID, Name: vfNamePrefix + "/open-at-goaway", ReqMsgs: mkMsgs(), End: "goaway"}
 		last := nextID - 2
 		ex.GoAway = &last
 		ex.GoAwayGraceful = r.Chance(1, 2)
@@ -1295,4 +1298,144 @@ func TestVerifC15RetryTimer(t *testing.T) {
 	wg.Wait()
 	rep.Sample(map[string]any{"scenario": "A", "expect": "one trace: attempt 3 (200, grpc-status 0)"})
 	rep.RequireMin("timer_scenarios_decided", 2)
+}
+
+
+// ---------------------------------------------------------------- several connections of one listener
+
+type vfFakeListener struct {
+	conns []net.Conn
+}
+
+func (l *vfFakeListener) Accept() (net.Conn, error) {
+	if len(l.conns) == 0 {
+		return nil, errors.New("no more connections")
+	}
+	c := l.conns[0]
+	l.conns = l.conns[1:]
+	return c, nil
+}
+func (l *vfFakeListener) Close() error   { return nil }
+func (l *vfFakeListener) Addr() net.Addr { return &net.TCPAddr{} }
+
+// vfFeedStep pushes one step of an exchange through a server-side traced conn.
+func vfFeedStep(conn net.Conn, sc *vfScriptConn, st vfStep, r *verifkit.Rand) error {
+	data := st.Bytes
+	for len(data) > 0 {
+		n := 1 + r.Intn(len(data))
+		chunk := data[:n]
+		data = data[n:]
+		if st.Dir == 0 { // the server reads requests
+			sc.mu.Lock()
+			sc.rbuf = append(sc.rbuf, chunk...)
+			sc.mu.Unlock()
+			got := 0
+			for got < len(chunk) {
+				buf := make([]byte, 1+r.Intn(96))
+				k, err := conn.Read(buf)
+				if err != nil || k == 0 {
+					return fmt.Errorf("Read returned (%d, %v)", k, err)
+				}
+				got += k
+			}
+		} else if k, err := conn.Write(chunk); err != nil || k != len(chunk) {
+			return fmt.Errorf("Write returned (%d, %v)", k, err)
+		}
+	}
+	return nil
+}
+
+// TestVerifC15Listener: two connections accepted from one traced listener
+// (server side, as the grpc reference server uses it); their frames are
+// interleaved, and one connection ends while the other still has calls in
+// flight - in particular between a refusal and its retry.
+func TestVerifC15Listener(t *testing.T) {
+	rep := verifkit.Begin("C15", "listener", "TracingHTTP2Listener over a fake listener handing out two scripted connections; each carries a generated exchange (as in the exchanges part; distinct test names per connection), steps of the two interleaved at random; connection A is closed (or its Read returns EOF) as soon as its script is done, i.e. at a random point of B's script, also between a REFUSED_STREAM and its retry; oracle per named stream of either connection: exactly one trace with the expected events; distinct = (script pair, interleaving)")
+	defer rep.Write()
+	n := verifkit.Scale(250, 8000)
+	for it := 0; it < n; it++ {
+		vfNamePrefix = "ConnA"
+		exA, orderA := vfGenExchangeOrdered(verifkit.Stream("c15lnA", it), verifkit.Stream("c15lnA-s", it), false)
+		vfNamePrefix = "ConnB"
+		exB, orderB := vfGenExchangeOrdered(verifkit.Stream("c15lnB", it), verifkit.Stream("c15lnB-s", it), it%2 == 0)
+		vfNamePrefix = "Suite"
+		r := verifkit.Stream("c15ln-mix", it)
+		coll := &vfCountingCollector{}
+		scA, scB := &vfScriptConn{writeFail: -1}, &vfScriptConn{writeFail: -1}
+		ln := TracingHTTP2Listener(&vfFakeListener{conns: []net.Conn{scA, scB}}, coll)
+		rep.Eval(1)
+		rep.DistinctKey(it)
+		w := map[string]any{"pair": it}
+		var playErr error
+		hasRetryB := false
+		for _, s := range exB.Streams {
+			hasRetryB = hasRetryB || s.RetryOf != nil
+		}
+		pn := verifkit.Catch(func() {
+			connA, _ := ln.Accept()
+			connB, _ := ln.Accept()
+			ia, ib := 0, 0
+			closedA := false
+			for ia < len(exA.Steps) || ib < len(exB.Steps) {
+				pickA := ia < len(exA.Steps) && (ib >= len(exB.Steps) || r.Chance(1, 3))
+				if pickA {
+					if playErr = vfFeedStep(connA, scA, exA.Steps[ia], r); playErr != nil {
+						return
+					}
+					ia++
+				} else {
+					if playErr = vfFeedStep(connB, scB, exB.Steps[ib], r); playErr != nil {
+						return
+					}
+					ib++
+				}
+				if ia == len(exA.Steps) && !closedA {
+					closedA = true
+					if r.Bool() {
+						_ = connA.Close()
+					} else {
+						_, _ = connA.Read(make([]byte, 16)) // the peer went away: (0, io.EOF)
+					}
+				}
+			}
+			_ = connB.Close()
+			if !closedA {
+				_ = connA.Close()
+			}
+		})
+		if pn != nil {
+			rep.Violation("h2/listener/panic/"+pn.Site, pn.Value, w)
+			continue
+		}
+		if playErr != nil {
+			rep.Violation("h2/listener/not-transparent", playErr.Error(), w)
+			continue
+		}
+		if hasRetryB {
+			rep.Count("pairs_with_a_retry_on_the_other_connection", 1)
+		}
+		coll.mu.Lock()
+		for side, exo := range map[string]struct {
+			ex    *vfExchange
+			order []vfIntentRef
+		}{"A": {exA, orderA}, "B": {exB, orderB}} {
+			for name, exp := range vfExpectedTraces(exo.ex, exo.order) {
+				ts := coll.traces[name]
+				kind := vfStreamKind(exo.ex, name)
+				if len(ts) != 1 {
+					rep.Violation(fmt.Sprintf("h2/listener/trace-count/%d/%s/conn%s", len(ts), kind, side), fmt.Sprintf("stream %q (%s) on connection %s: %d completed traces, want exactly 1", name, kind, side, len(ts)), w)
+					continue
+				}
+				if got := vfTraceSig(ts[0]); !vfEventsMatch(got, exp.Events) {
+					rep.Violation("h2/listener/events/"+kind+"/conn"+side, fmt.Sprintf("stream %q: events %q, want %q", name, got, exp.Events), w)
+					continue
+				}
+				rep.Count("listener_streams_ok", 1)
+			}
+		}
+		coll.mu.Unlock()
+	}
+	rep.Sample(map[string]any{"conn B": "stream 1 refused, retried as stream 3", "conn A": "one call, then the connection is closed between B's refusal and retry", "expect": "one trace for B's test: the retry"})
+	rep.RequireMin("listener_streams_ok", 300)
+	rep.RequireMin("pairs_with_a_retry_on_the_other_connection", 20)
 }
